@@ -335,13 +335,11 @@ func Walk(g *Graph, h Harness, opt Options) *Result {
 	refused := make([]int, len(g.edges))
 	dead := make([]bool, len(g.edges))
 	var dist []int
+	revEdges := make([][]int, len(g.states)) // incoming edge indexes per state (built once)
+	for ei, e := range g.edges {
+		revEdges[e.to] = append(revEdges[e.to], ei)
+	}
 	recompute := func() {
-		rev := make([][]int, len(g.states))
-		for ei, e := range g.edges {
-			if !dead[ei] {
-				rev[e.to] = append(rev[e.to], e.from)
-			}
-		}
 		dist = make([]int, len(g.states))
 		for i := range dist {
 			dist[i] = -1
@@ -359,8 +357,11 @@ func Walk(g *Graph, h Harness, opt Options) *Result {
 		for len(q) > 0 {
 			s := q[0]
 			q = q[1:]
-			for _, p := range rev[s] {
-				if dist[p] < 0 {
+			for _, ei := range revEdges[s] {
+				if dead[ei] {
+					continue
+				}
+				if p := g.edges[ei].from; dist[p] < 0 {
 					dist[p] = dist[s] + 1
 					q = append(q, p)
 				}
